@@ -280,6 +280,10 @@ def main():
             bad_ax = [a for a in pa["axioms"] if a not in ALLOWED_AXIOMS]
             if bad_ax:
                 proof_problems.append("axioms not in the allow-list: " + ", ".join(bad_ax))
+            src_thms = re.findall(r"^\s*(?:Theorem|Corollary)\s+(\w+)", strip_comments(open(os.path.join(THEORIES, props_module + ".v")).read()), re.M)
+            unprinted = [t for t in src_thms if t not in prints]
+            if unprinted:
+                proof_problems.append("theorems without Print Assumptions in Props file: " + ", ".join(unprinted[:5]))
             if pa["closed"] + (1 if pa["axioms"] else 0) < 1 or pa["closed"] < len(prints) - (1 if pa["axioms"] else 0):
                 proof_problems.append(f"Print Assumptions: {pa['closed']} closed blocks for {len(prints)} prints")
     obligations = len(thms) + len(spec.get("tie_lemmas", []))
